@@ -60,12 +60,10 @@ def exempt : List (String × String) := [
 ]
 
 /-- Recorded OPEN findings (known_findings.json): unsynchronised shared fields of the current tree.
-    F18b, F18d, F18f, F18g, F18h were repaired by `fix:` commits and are no longer listed: they must satisfy the
+    F18b, F18c, F18d, F18e, F18f, F18g, F18h were repaired by `fix:` commits and are no longer listed: they must satisfy the
     discipline now. -/
 def knownRacy : List (String × String × String) := [
-  ("F18a", "lunarcontext.lunarContext", "transactionalContext"),
-  ("F18c", "routing.HandlingDataManager", "stream"),
-  ("F18e", "utils.MemoryCache", "currentCacheSize")
+  ("F18a", "lunarcontext.lunarContext", "transactionalContext")
 ]
 
 def allowed : List (String × String) := exempt ++ knownRacy.map fun (_, s, f) => (s, f)
@@ -96,6 +94,7 @@ def requiredCoverage : List (String × String × String × List String) := [
   ("queue.DelayedPriorityQueue", "queue", "mutex", []),
   ("config.TxnPoliciesAccessor", "txnVersions", "mutex", []),
   ("utils.MemoryCache", "cache", "mutex", []),
+  ("routing.StreamsData", "stream", "streamLock", []),
   ("processorqueue.Request", "state", "inProcessMutex", []),
   ("processorqueue.RequestWatcher", "requests", "requestsMapMutex", []),
   ("processorqueue.RequestWatcher", "requestsExpireAt", "expireMapMutex", [])
